@@ -155,6 +155,42 @@ fn zsthuge<N: ArrayLength>(lcode: &str) {
     ev!("\"ev\":\"zsthuge\",\"n\":{},\"l\":\"{}\",\"count_ok\":{},\"rem_ok\":{},\"flat_ok\":{}", n, lcode, chunks.len() == l / n, rem.len() == l % n, flat.len() == (l / n) * n);
 }
 
+/// borrowed views and reinterpretations of arrays of zero-sized elements whose LENGTH no sized array can have (C02);
+/// lengths travel as two 32-bit halves
+fn zstviews<N: ArrayLength>() {
+    use core::borrow::{Borrow, BorrowMut};
+    let n = N::USIZE;
+    let half = |x: usize| format!("\"hi\":{},\"lo\":{}", (x as u64) >> 32, (x as u64) & 0xffff_ffff);
+    // O(1): a zero-sized value needs no initialisation
+    let mut a: GenericArray<(), N> = unsafe { GenericArray::assume_init(GenericArray::<(), N>::uninit()) };
+    let base = &a as *const GenericArray<(), N> as usize;
+    let mut views: Vec<String> = Vec::new();
+    let mut view = |name: &str, len: usize, addr: usize| views.push(format!("{{\"v\":\"{}\",{},\"addr_ok\":{}}}", name, half(len), addr == base));
+    view("len", a.len(), base);
+    { let s = a.as_slice(); view("as_slice", s.len(), s.as_ptr() as usize); }
+    { let s = a.as_mut_slice(); view("as_mut_slice", s.len(), s.as_ptr() as usize); }
+    { let s: &[()] = &a; view("deref", s.len(), s.as_ptr() as usize); }
+    { let s: &mut [()] = &mut a; view("deref_mut", s.len(), s.as_ptr() as usize); }
+    { let s: &[()] = a.as_ref(); view("as_ref", s.len(), s.as_ptr() as usize); }
+    { let s: &mut [()] = a.as_mut(); view("as_mut", s.len(), s.as_ptr() as usize); }
+    { let s: &[()] = a.borrow(); view("borrow", s.len(), s.as_ptr() as usize); }
+    { let s: &mut [()] = a.borrow_mut(); view("borrow_mut", s.len(), s.as_ptr() as usize); }
+    { let it = a.iter(); view("iter", it.len(), it.as_slice().as_ptr() as usize); }
+    { let it = (&a).into_iter(); view("ref_into_iter", it.len(), it.as_slice().as_ptr() as usize); }
+    { let it = (&mut a).into_iter(); view("mut_into_iter", it.len(), base); }
+    // reinterpretation of slices of exactly N, one fewer and (where it exists) one more
+    let mk = |l: usize| -> &'static [()] { unsafe { std::slice::from_raw_parts(std::ptr::NonNull::<()>::dangling().as_ptr(), l) } };
+    let exact = mk(n);
+    let exact_ok = GenericArray::<(), N>::try_from_slice(exact).map(|g| g.len() == n && g as *const _ as usize == exact.as_ptr() as usize).unwrap_or(false);
+    let from_ok = std::panic::catch_unwind(|| GenericArray::<(), N>::from_slice(mk(N::USIZE)).len() == N::USIZE).unwrap_or(false);
+    let tryfrom_ok = <&GenericArray<(), N>>::try_from(exact).is_ok();
+    let short_err = GenericArray::<(), N>::try_from_slice(mk(n - 1)).is_err() && <&GenericArray<(), N>>::try_from(mk(n - 1)).is_err();
+    let short_panics = std::panic::catch_unwind(|| { let _ = GenericArray::<(), N>::from_slice(mk(N::USIZE - 1)); }).is_err();
+    let long_err = n == usize::MAX || (GenericArray::<(), N>::try_from_slice(mk(n + 1)).is_err() && std::panic::catch_unwind(|| { let _ = GenericArray::<(), N>::from_slice(mk(N::USIZE + 1)); }).is_err());
+    ev!("\"ev\":\"zstviews\",\"n_hi\":{},\"n_lo\":{},\"views\":[{}],\"exact_ok\":{},\"short_rejected\":{},\"long_rejected\":{}",
+        (n as u64) >> 32, (n as u64) & 0xffff_ffff, views.join(","), exact_ok && from_ok && tryfrom_ok, short_err && short_panics, long_err);
+}
+
 pub fn run_case(scn: &J) {
     // with d.rec the allocator calls of the construction are part of the trace (layouts of multi-MiB blocks)
     let rec = scn["d"]["rec"].as_bool().unwrap_or(false);
@@ -166,8 +202,8 @@ pub fn run_case(scn: &J) {
     let op = scn["d"]["op"].as_str().unwrap().to_string();
     let shape = scn["d"]["shape"].as_str().unwrap().to_string();
     let arg = scn["d"]["arg"].as_u64().unwrap_or(0) as usize;
-    if op == "bigseq" || op == "bigserde" || op == "zsthuge" {
-        use generic_array::typenum::{Sum, U1, U2, U2048, U3, U4096, U7, U8192};
+    if op == "bigseq" || op == "bigserde" || op == "zsthuge" || op == "zstviews" {
+        use generic_array::typenum::{Sum, U1, U2, U2048, U3, U4096, U5, U7, U8192, U4294967296, U4611686018427387904, U9223372036854775807, U9223372036854775808};
         let sub = scn["d"]["sub"].as_str().unwrap_or("").to_string();
         let h = std::thread::Builder::new()
             .stack_size(64 << 20)
@@ -181,6 +217,12 @@ pub fn run_case(scn: &J) {
                 ("zsthuge", "2") => zsthuge::<U2>(&sub),
                 ("zsthuge", "3") => zsthuge::<U3>(&sub),
                 ("zsthuge", "7") => zsthuge::<U7>(&sub),
+                ("zstviews", "2^32") => zstviews::<U4294967296>(),
+                ("zstviews", "2^62") => zstviews::<U4611686018427387904>(),
+                ("zstviews", "2^63-1") => zstviews::<U9223372036854775807>(),
+                ("zstviews", "2^63") => zstviews::<U9223372036854775808>(),
+                ("zstviews", "2^63+5") => zstviews::<Sum<U9223372036854775808, U5>>(),
+                ("zstviews", "2^64-1") => zstviews::<Sum<U9223372036854775808, U9223372036854775807>>(),
                 _ => panic!("HARNESS: big family {} {}", op, shape),
             })
             .expect("HARNESS: spawn");
